@@ -79,5 +79,28 @@ claim("C20", "model_checking",
       "the repository's own tests use it); harness/props/C20.py performs the probes from each class's default parameters.",
       "TLC-enumerated probe catalogue (exact rationals) replayed on the real constructors + TLA+ trace validation; FIN clause over the scan campaigns", "DESIGN.md 9 C20")
 
+REL_NOTE = ("Trusted base: TLC; harness/drivers/relations.py + generic.py (builds both members of each pair from the campaign state, requests points that scale with the problem); "
+            "the expected relation (dimension vectors, parities, similarity exponents, route field maps, tolerances) is computed by TLC from spec/Relations.tla in sign/log integer "
+            "arithmetic with rational exponents. Finite campaign, exhaustively enumerated (expensive routes are a seeded sample in the quick tier).")
+REL_TECH = "TLA+ trace validation (TLC) of pair relations over a TLC-enumerated campaign"
+claim("C07", "model_checking",
+      "Routes of spec/RelCampaign.tla (Noh=Cog19, Noh=black-box Noh with an ideal gas and a physical Newton guess, Noh2=Noh2Cog, Noh2=Cog1(b=0, t->1-t, u->-u), every "
+      "geometry wrapper = general class, Rod1D = the three planar sandwiches, Rod BC3 = mirrored BC4, Kenamond 2-D = 3-D on a common plane, IGEOS = GenEOS on ideal-gas data) "
+      "crossed with the whole parameter campaign; both routes are run and TLC checks field-by-field agreement at the resolution class of the less accurate route.",
+      REL_NOTE, REL_TECH, "DESIGN.md 9 C07")
+claim("C08", "model_checking",
+      "For 16 families TLC computes from the dimension vectors of spec/Relations.tla (exponents of M, L, T, Theta in exact rationals, configuration dependent for Sedov and Coggeshall) "
+      "how every constructor parameter is rescaled for two independent scale-factor sets; the harness runs the solver in both unit systems and TLC checks that every output field "
+      "changed by the factor its own dimension vector dictates (tolerance 5e-5: the same algorithm on rescaled inputs).",
+      REL_NOTE, REL_TECH, "DESIGN.md 9 C08")
+claim("C09", "model_checking",
+      "Mirror image and Galilean boost of every state of the Riemann lattice (ideal-gas solver), and exact rigid motions (rotations by Pythagorean angles, reflections, "
+      "translations where the problem admits them) of Kenamond 1-3 and the DSD cylindrical expansion, enumerated by TLC; field parities and the additive velocity shift are "
+      "owned by spec/Relations.tla.", REL_NOTE, REL_TECH, "DESIGN.md 9 C09")
+claim("C10", "model_checking",
+      "For Noh, Cog19, the Riemann solver, Mader (cell size scaled with t), EHEP region I and Sedov, TLC enumerates time ratios {2, 7/3, 1/10} per configuration and computes the "
+      "documented similarity exponents (Sedov: rational functions of geometry and omega) in exact rationals; the harness evaluates the solver at a point and at its similarity image "
+      "and TLC checks field = field * ratio^exponent.", REL_NOTE, REL_TECH, "DESIGN.md 9 C10")
+
 for p in [ "C07", "C08", "C09", "C10", "C11", "C12", "C13", "C14", "C15", "C16", "C18", "C19", "C20"]:
     pending(p, "check under construction in this round (design in DESIGN.md section 9); not claimed until it runs soundly on the unchanged tree")
